@@ -17,6 +17,7 @@ func init() {
 	register("C08", "cluster-member-replaced", c08Replaced)
 	register("C08", "cluster-settle-timeout-sole-instance", c08SettleTimeout)
 	register("C08", "cluster-settle-timeout-pair", c08SettleTimeout)
+	register("C08", "cluster-oversized-log-entries", c08Oversized)
 	register("C08", "cluster-peer-stops", c08PeerStops)
 	register("C08", "cluster-peer-killed", c08PeerStops)
 }
@@ -402,4 +403,85 @@ func c08PeerStops(s *sc) {
 		}
 		s.count("survivor-delivers")
 	}
+}
+
+// c08Oversized: one group of 120 alerts and a receiver with two integrations: each integration's log entry lists 120
+// alert hashes, which makes its gossip message larger than half a gossip packet - it travels over the reliable (TCP)
+// path, is never re-gossiped, and full-state exchanges (push/pull, 1 min) are far slower than the peer timeout. Both
+// entries are queued back to back; both must reach the later-positioned member before its wait ends, so each
+// (group, integration) is notified exactly once by the healthy pair.
+func c08Oversized(s *sc) {
+	sink, err := NewSink()
+	s.must(err, "sink")
+	defer sink.Close()
+	conf := Conf{Root: Route{Receiver: "r0", GroupBy: []string{"g"}, GW: gw, GI: clusterGI, RI: time.Hour},
+		Receivers: []Recv{{Name: "r0", Hooks: []Hook{{SendResolved: false}, {SendResolved: false}}}}}
+	a := startMember(s, sink, "am-a", nil, 10*time.Second, conf)
+	b := startMember(s, sink, "am-b", []*member{a}, 10*time.Second, conf)
+	ms := []*member{a, b}
+	if !converged(s, ms, 12*time.Second) {
+		s.inconclusive("the pair did not report ready within 12s")
+		return
+	}
+	if !gossipHealthy(s, ms) {
+		return
+	}
+	const nAlerts = 120
+	now := time.Now() // young alerts: the group waits its full group_wait, so one flush holds the whole batch
+	end := now.Add(10 * time.Minute)
+	var as []AlertIn
+	for i := 0; i < nAlerts; i++ {
+		as = append(as, AlertIn{Labels: map[string]string{"alertname": "A", "g": "big", "id": fmt.Sprintf("o%03d", i)}, StartsAt: &now, EndsAt: &end})
+	}
+	tPost := time.Now()
+	postAll(s, ms, as)
+	eps := []string{"r0.w0", "r0.w1"}
+	delivered := func(reqs []Req, ep string) []Req {
+		var out []Req
+		for _, r := range reqs {
+			if r.Name == ep && r.Msg.Status == "firing" && !r.Aborted && r.Code < 300 && r.Msg.GroupLabels["g"] == "big" {
+				out = append(out, r)
+			}
+		}
+		return out
+	}
+	all := func(reqs []Req) bool { return len(delivered(reqs, eps[0])) > 0 && len(delivered(reqs, eps[1])) > 0 }
+	if !sink.WaitFor(tPost.Add(gw+slack), all) {
+		if sink.WaitFor(tPost.Add(gw+slack+late), all) {
+			s.inconclusive("first notification later than group_wait+%s", slack)
+		} else {
+			s.violate("cluster-no-notification", "no instance notified both integrations for the group of %d alerts within %s", nAlerts, gw+slack+late)
+		}
+		return
+	}
+	// the later-positioned member flushes at about the same instant and looks the log up after one peer timeout
+	time.Sleep(peerTimeout + 1500*time.Millisecond)
+	reqs := sink.Reqs()
+	for _, ep := range eps {
+		ds := delivered(reqs, ep)
+		if len(ds[0].Msg.Alerts) != nAlerts {
+			s.inconclusive("the first flush did not hold the whole batch (%d of %d alerts)", len(ds[0].Msg.Alerts), nAlerts)
+			return
+		}
+	}
+	for _, ep := range eps {
+		if ds := delivered(reqs, ep); len(ds) != 1 {
+			s.violate("cluster-duplicate-notification", "a healthy pair (gossip probe fast, no faults) notified integration %s %d times for one unchanged group of %d alerts; the second came %.2fs after the first (the log entries of such a group travel as oversized gossip messages, two of them back to back)", ep, len(ds), nAlerts, ds[1].T.Sub(ds[0].T).Seconds())
+			return
+		}
+	}
+	// evidence that the scenario exercised the oversized path: the sender queued its two log entries there
+	sent := 0.0
+	for _, m := range ms {
+		v, _ := m.in.Metric("alertmanager_oversized_gossip_message_sent_total", "key", "nfl")
+		if v > sent {
+			sent = v
+		}
+	}
+	s.logf("oversized nfl messages sent by the notifying member: %v", sent)
+	if sent < 2 {
+		s.inconclusive("the log entries did not travel as oversized messages")
+		return
+	}
+	s.count("oversized-entries-exactly-once-per-integration")
 }
